@@ -316,7 +316,12 @@ def native_replay(u, scr, inputs, workdir):
     with open(inp, 'w') as f:
         json.dump(inputs, f)
     try:
-        p = subprocess.run([exe, inp], stdout=subprocess.PIPE,
+        args = ['unit=' + u['name']]
+        for k, v in inputs.items():
+            if isinstance(v, list):
+                v = ','.join(str(x) for x in v)
+            args.append('%s=%s' % (k, v))
+        p = subprocess.run([exe] + args, stdout=subprocess.PIPE,
                            stderr=subprocess.STDOUT, text=True, timeout=60,
                            errors='replace')
         out = p.stdout[-3000:]
@@ -408,7 +413,7 @@ def run_property(prop, tier, only=None, keep=False, jobs=16, seed=0,
                     print('   FAILED %s  (%s) %s' % (c['id'], c['loc'],
                                                      c['desc'][:140]))
         wall = time.time() - t0
-        if write_evidence and not only:
+        if write_evidence and not only and not os.environ.get("VF_NOEVIDENCE"):
             write_evidence_file(prop, table, tier, seed, results, known_hits,
                                 len(violations), wall, scr, annot_status)
         for p_, tail in vio_paths:
